@@ -146,10 +146,6 @@ func ReadFrom(r io.Reader) (*Index, error) {
 	if err != nil {
 		return nil, err
 	}
-	if n == 0 {
-		return nil, nil
-	}
-
 	err = readTabixHeader(r, &idx)
 	if err != nil {
 		return nil, err
@@ -206,8 +202,13 @@ func readTabixHeader(r io.Reader, idx *Index) error {
 	if err != nil {
 		return fmt.Errorf("tabix: failed to read name lengths: %w", err)
 	}
-	if n < 1 {
+	if n < 0 {
 		return fmt.Errorf("tabix: invalid name block length: %d", n)
+	}
+	if n == 0 {
+		// No names: only valid for an index without references,
+		// which the caller checks.
+		return nil
 	}
 	nameBytes := make([]byte, n)
 	_, err = io.ReadFull(r, nameBytes)
